@@ -178,6 +178,14 @@ def positions(s, forms=('c', 'm', 'o')):
     add('rmul', OPN('ex', lit, n=3, rmul=True), 'o')
     add('Conditional.pre1', OPN('cat', OPN('opt', OPN('cap', Z, name='cn')), OPN('cond', lit, name='cn')), 'c')
     add('Conditional.pre2', OPN('cat', OPN('opt', OPN('cap', Z, name='cn')), OPN('cond', Z, lit, name='cn')), 'c')
+    # next to a numeric back reference (a digit-leading / backslash-ending literal must stay what it is)
+    capz = OPN('cap', Z)
+    ref1 = {'o': 'bref', 'r': 1}
+    for f in forms:
+        add('concat.after-backref/' + f, OPN('cat', capz, ref1, lit), f)
+        add('concat.after-backslash-backref/' + f, OPN('cat', capz, L('q\\'), ref1, lit), f)
+        add('concat.before-backref/' + f, OPN('cat', capz, lit, ref1, L('0')), f)
+    add('enclose.after-backref', OPN('cat', capz, OPN('enc', ref1, lit)), 'c')
     add('FollowedBy.assertion2', OPN('fol', Z, Z, lit), 'c')
     add('NotPrecededBy.assertion2', OPN('npre', Z, Z, lit), 'c')
     return out
@@ -322,7 +330,7 @@ def w3_depth2(rnd=None, sample=None):
 # ---------------------------------------------------------------------------- W4 random deep programs
 HOST = ['a', 'ab', 'a$', '^a', 'a|b', '[x', 'x]', '(', ')', 'a)', '(?:', 'a?', 'a+', '{2}', '\\', 'a\\', '\n', 'a.b',
         'é', '$', 'US$ 5', '?:x', 'a*b', '\\$', '(?P<', '>', '\\\\', 'x|', '|', '[a-z]', '^', 'a\nb', '-', '/', '(a)',
-        '\\b', '\\A', '.', '?']
+        '\\b', '\\A', '.', '?', 'İ', '\x00', '\U0001F600', '\x7f', 'ß', '\t', 'a\rb', '\u2028', 'é$', '^é', 'Ω|ω', "it's", '\\\'', '\\\\\\\\', ' ']
 BEN = ['a', 'b', 'ab', 'abc', 'x', 'xy', 'q', '0', '12', 'Ab', '7', '0x']
 CLSCH = ['a', '[', '(', 'x', '+', '-', '$', ']', '^', '\\', '\n', '.', '?', '*', '{', ')', '/', 'z', '0']
 NAMED = ['AnyLetter', 'Any', 'AnyButDigit', 'AnyWhitespace', 'AnyDigit', 'AnyWordChar', 'AnyPunctuation',
@@ -531,6 +539,9 @@ def w_invalid():
             yield {'prog': OPN('cond', Z, name=nm), 'form': 'c', 'w': 'Winv'}
     for r in (0, 1, 9, 10, 11, 99, 100, -1, 2.0, None, [1]):
         yield {'prog': {'o': 'bref', 'r': r}, 'form': 'c', 'w': 'Winv'}
+    for v in ('none', 'float', 'bytes', 'list', 'int', 'bool'):
+        yield {'prog': {'o': 'pregexbad', 'v': v}, 'form': 'c', 'w': 'Winv'}
+        yield {'prog': {'o': 'pregexbad', 'v': v, 'escape': False}, 'form': 'c', 'w': 'Winv'}
     for lk in ('fol', 'nfol', 'pre', 'npre', 'lenc', 'nlenc'):
         yield {'prog': OPN(lk, Z), 'form': 'c', 'w': 'Winv'}
     for o in ('cat', 'alt'):
